@@ -826,4 +826,387 @@ example : Granted cfgAux (auxReq true 0) :=
         simp only [List.mem_cons, List.not_mem_nil, or_false] at he
         subst he; exact ⟨.operate, rfl⟩) ⟨.write, rfl⟩).mp (by decide)
 
+/-! ## the PRODUCTION mutators preserve well-formedness
+
+`acl_add_init` / `acl_update(_init)` / `acl_remove` / `acl_remove_all` (Access Control cluster
+handler), `Groups::remove`, `groupcast_join` (also when it returns its error: the state has changed),
+`groupcast_remove`, and `load_persist` of what `FabricPersist::store` wrote. -/
+
+theorem wf_fabricsMutate {fabrics fabrics' : List Fabric} {fab : Nat} {g : Fabric → Option Fabric}
+    (hwf : WF fabrics)
+    (hg : ∀ f f', f ∈ fabrics → g f = some f' → f'.fabIdx = f.fabIdx ∧
+      (∀ e ∈ f'.acl, e.fabIdx = some f'.fabIdx) ∧ (f'.groups.map (·.groupId)).Nodup)
+    (h : fabricsMutate fabrics fab g = some fabrics') : WF fabrics' := by
+  unfold fabricsMutate at h
+  cases hget : fabricsGet fabrics fab with
+  | none => simp [hget] at h
+  | some f =>
+    obtain ⟨hf, hi⟩ := fabricsGet_some_mem hget
+    simp only [hget] at h
+    cases hr : g f with
+    | none => simp [hr] at h
+    | some f' =>
+      simp only [hr] at h
+      injection h with h; subst h
+      obtain ⟨a1, a2, a3⟩ := hg f f' hf hr
+      exact wf_fabricsUpdate_const hwf (a1.trans hi) a2 a3
+
+theorem mem_set_imp' {α : Type} (l : List α) (i : Nat) (x y : α) (h : y ∈ l.set i x) :
+    y = x ∨ y ∈ l := by
+  induction l generalizing i with
+  | nil => simp at h
+  | cons a as ih =>
+    cases i with
+    | zero =>
+      simp only [List.set_cons_zero, List.mem_cons] at h
+      rcases h with h | h
+      · exact Or.inl h
+      · exact Or.inr (List.mem_cons_of_mem _ h)
+    | succ j =>
+      simp only [List.set_cons_succ, List.mem_cons] at h
+      rcases h with h | h
+      · exact Or.inr (by simp [h])
+      · rcases ih j h with h | h
+        · exact Or.inl h
+        · exact Or.inr (List.mem_cons_of_mem _ h)
+
+theorem aclAddInit_some {f f' : Fabric} {e : Entry} {i : Nat} (h : f.aclAddInit e = some (f', i)) :
+    f'.fabIdx = f.fabIdx ∧ f'.groups = f.groups ∧ f'.acl = f.acl ++ [{ e with fabIdx := some f.fabIdx }] := by
+  unfold Fabric.aclAddInit at h
+  split at h
+  · injection h with h; injection h with h1 h2
+    subst h1; exact ⟨rfl, rfl, rfl⟩
+  · cases h
+
+theorem wf_fabricsAclAddInit {fabrics fabrics' : List Fabric} {fab n : Nat} {e : Entry} (hwf : WF fabrics)
+    (h : fabricsAclAddInit fabrics fab e = some (fabrics', n)) : WF fabrics' := by
+  unfold fabricsAclAddInit at h
+  cases hg : fabricsGet fabrics fab with
+  | none => simp [hg] at h
+  | some f =>
+    obtain ⟨hf, hi⟩ := fabricsGet_some_mem hg
+    simp only [hg] at h
+    cases ha : f.aclAddInit e with
+    | none => simp [ha] at h
+    | some r =>
+      obtain ⟨f', i⟩ := r
+      simp only [ha] at h
+      injection h with h; injection h with h1 h2
+      subst h1
+      obtain ⟨a1, a2, a3⟩ := aclAddInit_some ha
+      apply wf_fabricsUpdate_const hwf (a1.trans hi)
+      · intro e' he'
+        rw [a3] at he'
+        rcases List.mem_append.mp he' with he' | he'
+        · rw [a1]; exact hwf.stamped f hf e' he'
+        · simp only [List.mem_singleton] at he'; subst he'; rw [a1]
+      · rw [a2]; exact hwf.groupsDistinct f hf
+
+theorem wf_fabricsAclUpdate {fabrics fabrics' : List Fabric} {fab idx : Nat} {e : Entry} (hwf : WF fabrics)
+    (h : fabricsAclUpdate fabrics fab idx e = some fabrics') : WF fabrics' := by
+  refine wf_fabricsMutate hwf ?_ h
+  intro f f' hf hr
+  unfold Fabric.aclUpdate at hr
+  split at hr
+  · cases hr
+  · injection hr with hr; subst hr
+    refine ⟨rfl, ?_, hwf.groupsDistinct f hf⟩
+    intro e' he'
+    rcases mem_set_imp' _ _ _ _ he' with h1 | h1
+    · subst h1; rfl
+    · exact hwf.stamped f hf e' h1
+
+theorem wf_fabricsAclRemove {fabrics fabrics' : List Fabric} {fab idx : Nat} (hwf : WF fabrics)
+    (h : fabricsAclRemove fabrics fab idx = some fabrics') : WF fabrics' := by
+  refine wf_fabricsMutate hwf ?_ h
+  intro f f' hf hr
+  unfold Fabric.aclRemove at hr
+  split at hr
+  · cases hr
+  · injection hr with hr; subst hr
+    exact ⟨rfl, fun e' he' => hwf.stamped f hf e' ((List.eraseIdx_sublist _ _).subset he'),
+      hwf.groupsDistinct f hf⟩
+
+theorem wf_fabricsAclRemoveAll {fabrics fabrics' : List Fabric} {fab : Nat} (hwf : WF fabrics)
+    (h : fabricsAclRemoveAll fabrics fab = some fabrics') : WF fabrics' := by
+  refine wf_fabricsMutate hwf ?_ h
+  intro f f' hf hr
+  injection hr with hr; subst hr
+  exact ⟨rfl, fun e' he' => absurd he' (by simp [Fabric.aclRemoveAll]), hwf.groupsDistinct f hf⟩
+
+/-- the canonical-privilege hypothesis of `allow_iff_granted` under the production mutators: kept by
+an add / update with a canonical privilege (the IM path decodes the 5-value enum), and by removals -/
+theorem canonical_fabricsUpdate_const {fabrics : List Fabric} {i : Nat} {f' : Fabric}
+    (hc : CanonicalPrivs fabrics) (hp : ∀ e ∈ f'.acl, ∃ p : Priv, e.privilege = p.bits) :
+    CanonicalPrivs (fabricsUpdate fabrics i (fun _ => f')) := by
+  intro f'' hf'' e' he'
+  rcases mem_fabricsUpdate hf'' with h | ⟨_, _, _, rfl⟩
+  · exact hc f'' h e' he'
+  · exact hp e' he'
+
+theorem canonical_fabricsMutate {fabrics fabrics' : List Fabric} {fab : Nat} {g : Fabric → Option Fabric}
+    (hc : CanonicalPrivs fabrics)
+    (hg : ∀ f f', f ∈ fabrics → g f = some f' → ∀ e ∈ f'.acl, ∃ p : Priv, e.privilege = p.bits)
+    (h : fabricsMutate fabrics fab g = some fabrics') : CanonicalPrivs fabrics' := by
+  unfold fabricsMutate at h
+  cases hget : fabricsGet fabrics fab with
+  | none => simp [hget] at h
+  | some f =>
+    obtain ⟨hf, _⟩ := fabricsGet_some_mem hget
+    simp only [hget] at h
+    cases hr : g f with
+    | none => simp [hr] at h
+    | some f' =>
+      simp only [hr] at h
+      injection h with h; subst h
+      exact canonical_fabricsUpdate_const hc (hg f f' hf hr)
+
+theorem canonical_fabricsAclAddInit {fabrics fabrics' : List Fabric} {fab n : Nat} {e : Entry}
+    (hc : CanonicalPrivs fabrics) (hp : ∃ p : Priv, e.privilege = p.bits)
+    (h : fabricsAclAddInit fabrics fab e = some (fabrics', n)) : CanonicalPrivs fabrics' := by
+  unfold fabricsAclAddInit at h
+  cases hg : fabricsGet fabrics fab with
+  | none => simp [hg] at h
+  | some f =>
+    obtain ⟨hf, _⟩ := fabricsGet_some_mem hg
+    simp only [hg] at h
+    cases ha : f.aclAddInit e with
+    | none => simp [ha] at h
+    | some r =>
+      obtain ⟨f', i⟩ := r
+      simp only [ha] at h
+      injection h with h; injection h with h1 h2
+      subst h1
+      obtain ⟨_, _, a3⟩ := aclAddInit_some ha
+      apply canonical_fabricsUpdate_const hc
+      intro e' he'
+      rw [a3] at he'
+      rcases List.mem_append.mp he' with he' | he'
+      · exact hc f hf e' he'
+      · simp only [List.mem_singleton] at he'; subst he'; exact hp
+
+theorem canonical_fabricsAclUpdate {fabrics fabrics' : List Fabric} {fab idx : Nat} {e : Entry}
+    (hc : CanonicalPrivs fabrics) (hp : ∃ p : Priv, e.privilege = p.bits)
+    (h : fabricsAclUpdate fabrics fab idx e = some fabrics') : CanonicalPrivs fabrics' := by
+  refine canonical_fabricsMutate hc ?_ h
+  intro f f' hf hr e' he'
+  unfold Fabric.aclUpdate at hr
+  split at hr
+  · cases hr
+  · injection hr with hr; subst hr
+    rcases mem_set_imp' _ _ _ _ he' with h1 | h1
+    · subst h1; exact hp
+    · exact hc f hf e' h1
+
+theorem canonical_fabricsAclRemove {fabrics fabrics' : List Fabric} {fab idx : Nat}
+    (hc : CanonicalPrivs fabrics) (h : fabricsAclRemove fabrics fab idx = some fabrics') :
+    CanonicalPrivs fabrics' := by
+  refine canonical_fabricsMutate hc ?_ h
+  intro f f' hf hr e' he'
+  unfold Fabric.aclRemove at hr
+  split at hr
+  · cases hr
+  · injection hr with hr; subst hr
+    exact hc f hf e' ((List.eraseIdx_sublist _ _).subset he')
+
+/-! ### group table -/
+
+theorem groupsRemove_nodup (gs : List GroupMapping) (ep : Nat) (gid : Option Nat)
+    (hd : (gs.map (·.groupId)).Nodup) : ((groupsRemove gs ep gid).1.map (·.groupId)).Nodup := by
+  unfold groupsRemove
+  simp only
+  apply List.Nodup.sublist (List.Sublist.map _ List.filter_sublist)
+  rw [List.map_map]
+  have : ((fun e : GroupMapping => e.groupId) ∘ fun e : GroupMapping =>
+      if groupHit gid e = true then { e with endpoints := e.endpoints.filter (· != ep) } else e)
+      = fun e => e.groupId := by
+    funext e
+    simp only [Function.comp]
+    split <;> rfl
+  rw [this]; exact hd
+
+theorem groupsUpdFirst_map (gs : List GroupMapping) (gid : Nat) (g : GroupMapping → GroupMapping)
+    (hg : ∀ e, (g e).groupId = e.groupId) :
+    (groupsUpdFirst gs gid g).map (·.groupId) = gs.map (·.groupId) := by
+  induction gs with
+  | nil => rfl
+  | cons x xs ih =>
+    unfold groupsUpdFirst
+    split
+    · simp [hg]
+    · simp [ih]
+
+/-- `groupcast_join` keeps the group ids distinct — whether it returns `Ok` or its error -/
+theorem groupsGroupcastJoin_nodup (gs : List GroupMapping) (gid : Nat) (eps : List Nat) (replace : Bool)
+    (hd : (gs.map (·.groupId)).Nodup) :
+    ((groupsGroupcastJoin gs gid eps replace).1.map (·.groupId)).Nodup := by
+  unfold groupsGroupcastJoin
+  cases hf : gs.find? (fun e => e.groupId == gid) with
+  | some e =>
+    simp only
+    have hm := groupsUpdFirst_map gs gid
+      (fun e_1 : GroupMapping => { e_1 with
+        endpoints := (joinEndpoints (if replace = true then [] else e.endpoints) eps).fst, managed := true })
+      (fun _ => rfl)
+    rw [hm]; exact hd
+  | none =>
+    simp only
+    split
+    · simp only [List.map_append, List.map_cons, List.map_nil]
+      rw [List.nodup_append]
+      refine ⟨hd, by simp, ?_⟩
+      intro a ha b hb
+      simp only [List.mem_singleton] at hb
+      obtain ⟨g, hg, rfl⟩ := List.mem_map.mp ha
+      rw [List.find?_eq_none] at hf
+      have := hf g hg
+      rw [hb]; simpa using this
+    · exact hd
+
+theorem groupsGroupcastRemove_nodup (gs : List GroupMapping) (gid : Nat)
+    (hd : (gs.map (·.groupId)).Nodup) : ((groupsGroupcastRemove gs gid).map (·.groupId)).Nodup :=
+  List.Nodup.sublist (List.Sublist.map _ List.filter_sublist) hd
+
+/-- any mutation of one fabric's group table that keeps its group ids distinct keeps `WF`
+(instances: `groupsRemove`, `groupsGroupcastJoin`, `groupsGroupcastRemove`) -/
+theorem wf_fabricsGroupsMutate {fabrics fabrics' : List Fabric} {fab : Nat}
+    {g : List GroupMapping → List GroupMapping} (hwf : WF fabrics)
+    (hg : ∀ gs, (gs.map (·.groupId)).Nodup → ((g gs).map (·.groupId)).Nodup)
+    (h : fabricsGroupsMutate fabrics fab g = some fabrics') : WF fabrics' := by
+  refine wf_fabricsMutate hwf ?_ h
+  intro f f' hf hr
+  injection hr with hr; subst hr
+  exact ⟨rfl, hwf.stamped f hf, hg _ (hwf.groupsDistinct f hf)⟩
+
+theorem wf_fabricsGroupRemove {fabrics fabrics' : List Fabric} {fab ep : Nat} {gid : Option Nat}
+    (hwf : WF fabrics)
+    (h : fabricsGroupsMutate fabrics fab (fun gs => (groupsRemove gs ep gid).1) = some fabrics') :
+    WF fabrics' :=
+  wf_fabricsGroupsMutate hwf (fun gs hd => groupsRemove_nodup gs ep gid hd) h
+
+theorem wf_fabricsGroupcastJoin {fabrics fabrics' : List Fabric} {fab gid : Nat} {eps : List Nat}
+    {replace : Bool} (hwf : WF fabrics)
+    (h : fabricsGroupsMutate fabrics fab (fun gs => (groupsGroupcastJoin gs gid eps replace).1) = some fabrics') :
+    WF fabrics' :=
+  wf_fabricsGroupsMutate hwf (fun gs hd => groupsGroupcastJoin_nodup gs gid eps replace hd) h
+
+theorem wf_fabricsGroupcastRemove {fabrics fabrics' : List Fabric} {fab gid : Nat} (hwf : WF fabrics)
+    (h : fabricsGroupsMutate fabrics fab (fun gs => groupsGroupcastRemove gs gid) = some fabrics') :
+    WF fabrics' :=
+  wf_fabricsGroupsMutate hwf (fun gs hd => groupsGroupcastRemove_nodup gs gid hd) h
+
+/-! ### start-up -/
+
+theorem nodup_filterMap_idx (blobs : Nat → Option Fabric) (hk : ∀ i f, blobs i = some f → f.fabIdx = i) :
+    ∀ (l : List Nat), l.Nodup → ((l.filterMap blobs).map (·.fabIdx)).Nodup ∧
+      ∀ f ∈ l.filterMap blobs, f.fabIdx ∈ l := by
+  intro l
+  induction l with
+  | nil => intro _; simp
+  | cons a as ih =>
+    intro hn
+    obtain ⟨hna, hnas⟩ := List.nodup_cons.mp hn
+    obtain ⟨ih1, ih2⟩ := ih hnas
+    cases hb : blobs a with
+    | none =>
+      simp only [List.filterMap_cons, hb]
+      exact ⟨ih1, fun f hf => List.mem_cons_of_mem _ (ih2 f hf)⟩
+    | some fa =>
+      simp only [List.filterMap_cons, hb, List.map_cons, List.nodup_cons]
+      have hfa := hk a fa hb
+      refine ⟨⟨?_, ih1⟩, ?_⟩
+      · intro hm
+        obtain ⟨g, hg, hge⟩ := List.mem_map.mp hm
+        have := ih2 g hg
+        rw [hge, hfa] at this; exact hna this
+      · intro f hf
+        rcases List.mem_cons.mp hf with h1 | h1
+        · subst h1; rw [hfa]; exact List.mem_cons_self ..
+        · exact List.mem_cons_of_mem _ (ih2 f h1)
+
+/-- **`load_persist` yields a well-formed table** from every storage in which the blob under key `i`
+holds a fabric with index `i` whose entries are stamped with `i` and whose group ids are distinct —
+which is what `FabricPersist::store` writes from a well-formed table (`wf_fabricsReload`). The
+faithfulness of the TLV encoding itself is outside this model. -/
+theorem wf_fabricsLoad (blobs : Nat → Option Fabric)
+    (hk : ∀ i f, blobs i = some f → f.fabIdx = i ∧ (∀ e ∈ f.acl, e.fabIdx = some f.fabIdx) ∧
+      (f.groups.map (·.groupId)).Nodup) : WF (fabricsLoad blobs) := by
+  unfold fabricsLoad
+  have hnd : (List.range' 1 255).Nodup := List.nodup_range'
+  refine ⟨(nodup_filterMap_idx blobs (fun i f h => (hk i f h).1) _ hnd).1, ?_, ?_⟩
+  · intro f hf
+    obtain ⟨i, _, hi⟩ := List.mem_filterMap.mp hf
+    exact (hk i f hi).2.1
+  · intro f hf
+    obtain ⟨i, _, hi⟩ := List.mem_filterMap.mp hf
+    exact (hk i f hi).2.2
+
+/-- store, restart, load: a well-formed table comes back well-formed -/
+theorem wf_fabricsReload {fabrics : List Fabric} (hwf : WF fabrics) : WF (fabricsReload fabrics) := by
+  apply wf_fabricsLoad
+  intro i f h
+  unfold fabricsBlobs at h
+  have hm := List.mem_of_find?_eq_some h
+  have hi := List.find?_some h
+  simp only [beq_iff_eq] at hi
+  exact ⟨hi, hwf.stamped f hm, hwf.groupsDistinct f hm⟩
+
+/-- … and answers every access request as before (fabric indices 1..255, as `NonZeroU8` makes them):
+the decision only looks the accessor's fabric up by index -/
+theorem fabricsGet_reload {fabrics : List Fabric} (hwf : WF fabrics) (i : Nat) (h1 : 1 ≤ i) (h2 : i ≤ 255) :
+    fabricsGet (fabricsReload fabrics) i = fabricsGet fabrics i := by
+  have hwf' := wf_fabricsReload hwf
+  cases hg : fabricsGet fabrics i with
+  | none =>
+    unfold fabricsGet at hg ⊢
+    rw [List.find?_eq_none] at hg ⊢
+    intro f hf
+    unfold fabricsReload fabricsLoad at hf
+    obtain ⟨j, _, hj⟩ := List.mem_filterMap.mp hf
+    unfold fabricsBlobs at hj
+    exact hg f (List.mem_of_find?_eq_some hj)
+  | some f =>
+    obtain ⟨hf, hi⟩ := fabricsGet_some_mem hg
+    have hmem : f ∈ fabricsReload fabrics := by
+      unfold fabricsReload fabricsLoad
+      refine List.mem_filterMap.mpr ⟨i, ?_, ?_⟩
+      · rw [List.mem_range'_1]; omega
+      · exact hg
+    -- in a table with distinct indices, the first fabric with index `i` is the only one
+    unfold fabricsGet
+    cases hr : (fabricsReload fabrics).find? (fun f => f.fabIdx == i) with
+    | none =>
+      rw [List.find?_eq_none] at hr
+      have := hr f hmem; simp [hi] at this
+    | some f' =>
+      have hm' := List.mem_of_find?_eq_some hr
+      have hi' := List.find?_some hr
+      simp only [beq_iff_eq] at hi'
+      -- `f'` comes from the blobs, i.e. is the first fabric with index `i` of `fabrics` = `f`
+      unfold fabricsReload fabricsLoad at hm'
+      obtain ⟨j, _, hj⟩ := List.mem_filterMap.mp hm'
+      unfold fabricsBlobs at hj
+      have hij := List.find?_some hj
+      simp only [beq_iff_eq] at hij
+      have : j = i := by rw [← hij, hi']
+      subst this
+      unfold fabricsGet at hg
+      rw [hg] at hj
+      exact congrArg some (Option.some.inj hj).symm
+
+/-- non-vacuity: the production mutators on the example configuration, and a reload -/
+def paseEntry : Entry :=
+  { privilege := PRIV_ADMIN, authMode := AuthMode.pase, subjects := none, targets := none, fabIdx := none }
+def viewEntry : Entry :=
+  { privilege := PRIV_VIEW, authMode := AuthMode.case, subjects := none, targets := none, fabIdx := some 9 }
+/-- `acl_add_init` does not reject a PASE entry (`acl_add` does) -/
+example : (fabricsAclAddInit cfg 1 paseEntry).isSome ∧ (fabricsAclAdd cfg 1 paseEntry).isNone := by decide
+example : (fabricsAclRemove cfg 1 0).isSome ∧ (fabricsAclUpdate cfg 2 0 viewEntry).isSome ∧
+    (fabricsGroupsMutate cfg 1 (fun gs => (groupsGroupcastJoin gs 9 [1, 1, 2] false).1)).isSome := by decide
+def g7 : GroupMapping := { groupId := 7, endpoints := [1], hasAuxAcl := none }
+def g8 : GroupMapping := { groupId := 8, endpoints := [1], hasAuxAcl := some false, managed := true }
+/-- `Groups::remove`: the legacy membership disappears with its last endpoint, the Groupcast-managed one stays -/
+example : (groupsRemove [g7, g8] 1 none).1 = [{ g8 with endpoints := [] }] := by decide
+example : (fabricsReload cfg).map (·.fabIdx) = [1, 2] := by decide
+
 end C05
